@@ -40,8 +40,12 @@ def plan(seed, subbatch):
     start = world.pick_start(cfg, base_s, tf_s)
     op_rng = sub_rng(seed, "operator")
     extras = [(op_rng.random(), {"op": "recollapse", "times": op_rng.randint(1, 2)}) for _ in range(recoll)]
+    regimes = None
+    if subbatch == "faulty" and cfg.random() < 0.4:
+        regimes = world.REGIMES_NORMAL + ["zerovol", "stall0", "stall"]
     pre, ops, fired, rows = planlib.stream_and_schedule(seed, subbatch, n, base_s, start, faults, burst,
-                                                        p_empty, extras, max_span_s=1500 * tf_s)
+                                                        p_empty, extras, max_span_s=1500 * tf_s, regimes=regimes,
+                                                        regime_len=(1, 12))
     return {"format": 1, "property": ID, "seed": seed, "subbatch": subbatch,
             "config": {"route": route, "tf": tf, "base_s": base_s},
             "ops": [{"op": "new", "preload": pre}] + ops, "fired": dict(fired)}
